@@ -74,6 +74,12 @@ CHECKS = {
 }
 
 
+# checks whose enumerating harness bodies are additionally run free on real goroutines under the race detector
+SWEEP = {"C01", "C02", "C03", "C04", "C05", "C06", "C07", "C08", "C09", "C10", "C11", "C12", "C13", "C14", "C16", "C17"}
+SWEEP_TECH = "; the deciding step is that enumeration — a separate free-running -race pass of the same harness bodies (sampling, reported apart) only adds the race detector for unsynchronised package-level state"
+SWEEP_NOTE = " Unsynchronised shared state (a scratch buffer hoisted to package scope, an unlocked cache) is invisible to sequential enumeration: the same harness bodies are therefore also run on 16 real goroutines under -race for a fixed time budget per family; that pass is sampling, is excluded from the exhaustive verdict and from the evaluation counts."
+
+
 def main():
     checks = []
     na = []
@@ -90,8 +96,8 @@ def main():
             "replay_cmd_template": f"./run.sh {cid} --replay {{path}}",
             "engine": "verifmc",
             "level_claimed": {"category": "model_checking", "text": c["text"], "design_ref": "DESIGN.md §" + c["sec"]},
-            "level_note": c["note"],
-            "technique": c["tech"],
+            "level_note": c["note"] + (SWEEP_NOTE if cid in SWEEP else ""),
+            "technique": c["tech"] + (SWEEP_TECH if cid in SWEEP else ""),
         })
     man = {
         "version": 1,
